@@ -35,3 +35,14 @@ func (c *Conn) PlugIn(port sim.Port)         { port.SetConnection(c) }
 func (c *Conn) Unplug(port sim.Port)         {}
 func (c *Conn) NotifyAvailable(p sim.Port)   {}
 func (c *Conn) NotifySend()                  { c.Sends++ }
+
+// Comp is a passive sim.Component: it owns ports and ignores notifications.
+type Comp struct {
+	*sim.ComponentBase
+	Frees int
+}
+
+func NewComp(name string) *Comp               { return &Comp{ComponentBase: sim.NewComponentBase(name)} }
+func (c *Comp) Handle(e sim.Event) error      { return nil }
+func (c *Comp) NotifyRecv(port sim.Port)      {}
+func (c *Comp) NotifyPortFree(port sim.Port)  { c.Frees++ }
